@@ -80,5 +80,31 @@ def concreteHandlers : Handlers XWorld :=
         | (.ok x, s) => (({ w with tape := s.tape }).putNew x.core.mySpi x.ext, some x.core)
         | (.error _, s) => ({ w with tape := s.tape }, none) }
 
+/-! ### rounds
+
+  One `select` round of the whole model: the loop iteration, after which the kernel has executed the netlink requests the iteration issued —
+  in order — and the handlers' picture of the kernel is that kernel.  Between two rounds an entry that is past its hand-over drops its
+  successor reference: in the implementation `new_ike_sa` is a reference to an object that then *is* a table entry (and evolves as that
+  entry) or has ended; the replay of every real iteration hands the model a successor only while it is pending. -/
+
+/-- REKEYED, DEL_AFTER_REKEY_IKE_SA_REQ_SENT, DELETED: the states after the hand-over -/
+def inPost (st : Nat) : Prop := st = stREKEYED ∨ st = stDEL_AFTER_REKEY_IKE_SA_REQ_SENT ∨ st = stDELETED
+
+instance : DecidablePred inPost := fun x => by unfold inPost; infer_instance
+
+def wholeStep (wc : XWorld × Ctl) (x : Nat × LoopEv) : XWorld × Ctl :=
+  let r := loopIter concreteHandlers wc.1 wc.2 x.1 x.2
+  ({ r.1 with sad := r.2.nl.foldl applyNl wc.1.sad }, r.2.ctl)
+
+def wholeRun (wc : XWorld × Ctl) (evs : List (Nat × LoopEv)) : XWorld × Ctl := evs.foldl wholeStep wc
+
+def normSas (c : List Sa) : List Sa := c.map fun s => if inPost s.core.st then { s with succ := none } else s
+
+def wholeStep2 (wc : XWorld × Ctl) (x : Nat × LoopEv) : XWorld × Ctl :=
+  let r := wholeStep wc x
+  (r.1, { r.2 with sas := normSas r.2.sas })
+
+def wholeRun2 (wc : XWorld × Ctl) (evs : List (Nat × LoopEv)) : XWorld × Ctl := evs.foldl wholeStep2 wc
+
 
 end PyIkev2.Impl
